@@ -23,7 +23,7 @@ CONSTANTS
   EmitMode = "none"
   BigSeries = {"s2"}
   ScriptName = "s3"
-  MaxCrashes = 2
+  MaxCrashes = 1
   CAllowKF = {"KF-C03-1", "KF-C03-2", "KF-C03-3"}
   CrashOdds = 1
   RecOdds = 1
